@@ -1206,16 +1206,28 @@ func runC11(c *Ctx) {
 		if !hasFact(in, func(ft fact) bool { return r.acceptingFact(ft, true) }) {
 			o.Fail(in.Pos(), "registration is not on the accepting edge")
 		}
-		if !hasFact(in, func(ft fact) bool {
-			return boolFact(ft, func(v ssa.Value) bool {
-				ex, ok := v.(*ssa.Extract)
-				if !ok || ex.Index != 1 {
-					return false
+		isLookupOK := func(v ssa.Value) bool {
+			ex, ok := v.(*ssa.Extract)
+			if !ok || ex.Index != 1 {
+				return false
+			}
+			lk, ok := origin(ex.Tuple).(*ssa.Lookup)
+			return ok && isFieldLoad(lk.X, r.LT, r.conns)
+		}
+		notFound := hasFact(in, func(ft fact) bool { return boolFact(ft, isLookupOK, false) })
+		if !notFound {
+			// the comma-ok result kept in a named result or local cell: the test as seen on each path
+			okAll, decided := everyUnitPathTo(G, in, func(conds []fact) bool {
+				for _, ft := range conds {
+					if boolFact(ft, isLookupOK, false) {
+						return true
+					}
 				}
-				lk, ok := origin(ex.Tuple).(*ssa.Lookup)
-				return ok && isFieldLoad(lk.X, r.LT, r.conns)
-			}, false)
-		}) {
+				return false
+			})
+			notFound = okAll && decided
+		}
+		if !notFound {
 			o.Fail(in.Pos(), "registration is not on the not-found edge of the table lookup: a second connection can be registered for a remote whose connection is still in the table (Close of the old one then removes the new entry)")
 		}
 		// filter: every call of the accept filter must dominate-or-skip: if the filter is called its true edge must hold
